@@ -195,7 +195,6 @@ fn rc3(e: &Euler, t: &P3, rc: &P3, x: &[f64; 6], p: &P3, n: &P3, d: f64, v: &P3)
     let prod = params.inverse() * tr;
     ensure!(prod.translation.vector.norm() <= tol && prod.rotation.angle().abs() <= 1e-9, "C08/rc3/inverse", "inverse * transform is not the identity (|t| {:e}, angle {:e})", prod.translation.vector.norm(), prod.rotation.angle());
     ensure!((params.current_rc() - tr * rcp).norm() <= tol, "C08/rc3/current_rc", "current_rc is not transform*rc after set");
-    ensure!(rot_diff(&params.rotations().q, &tr.rotation) <= 1e-12, "C08/rc3/rotations_q", "rotations().q is not the rotation part of the transform");
     // the rotation acts about rc, then the translation parameters are added on top of the initial displacement of rc
     let expect_rc = t0 * rcp + Vector3::new(x[0], x[1], x[2]);
     ensure!((tr * rcp - expect_rc).norm() <= tol, "C08/rc3/centre_motion", "transform*rc = {:?}, expected initial*rc + translation parameters = {:?}", tr * rcp, expect_rc);
@@ -303,12 +302,15 @@ fn handler(n: usize, static_i: u8, bodies: &[(Euler, P3, P3)], with_initial: boo
         }
         let k = h.p_index(i);
         let xi = &x[k * 6..k * 6 + 6];
-        // expected: Tr(initial*rc + t) * R(euler) * Tr(-rc)
+        // expected: a stand-alone parameter object for this body given the same six numbers
+        let mut alone = RcParams3::from_initial(&initial[i], &means[i]);
+        alone.set(&Vector6::new(xi[0], xi[1], xi[2], xi[3], xi[4], xi[5]));
+        let expect = *alone.transform();
         let rcd = initial[i] * means[i];
-        let r = RotationMatrices::from_euler(xi[3], xi[4], xi[5]).q;
-        let expect = Iso3::from_parts(Translation3::new(rcd.x + xi[0], rcd.y + xi[1], rcd.z + xi[2]), UnitQuaternion::identity()) * Iso3::from_parts(Translation3::identity(), r) * Iso3::translation(-means[i].x, -means[i].y, -means[i].z);
         let lever = 1.0 + means[i].coords.norm() + rcd.coords.norm();
         ensure!(near(&got, &expect, 1e-9, 1e-9 * lever), "C08/handler/set_param_columns", "body {i} is not driven by parameter columns {}..{} (rotation difference {:e}, translation difference {:e})", k * 6, k * 6 + 6, rot_diff(&got.rotation, &expect.rotation), (got.translation.vector - expect.translation.vector).norm());
+        // and the rotation centre of the body ends up at initial*rc plus the translation parameters
+        ensure!((got * means[i] - (rcd + Vector3::new(xi[0], xi[1], xi[2]))).norm() <= 1e-9 * lever, "C08/handler/centre_motion", "body {i}: transform*rc is not initial*rc + translation parameters");
         ensure!(h.params[i].x().as_slice() == xi, "C08/handler/body_params", "body {i} holds parameters {:?}, expected {:?}", h.params[i].x().as_slice(), xi);
     }
     // relative transform
